@@ -44,7 +44,17 @@ pub fn deb822_parse(fs: &[&str]) -> String {
         Ok(d) => format!("OK:{}:{}", hex(&d.to_string()), doc_items_s(&d)),
         Err(_) => "ERR".to_string(),
     });
-    format!("lex={}|{}|strict={}", lx, rel, strict)
+    let s4 = s.clone();
+    let rd = guard(move || match Deb822::read(s4.as_bytes()) {
+        Ok(d) => format!("OK:{}", hex(&d.to_string())),
+        Err(_) => "ERR".to_string(),
+    });
+    let s5 = s.clone();
+    let rdr = guard(move || match Deb822::read_relaxed(s5.as_bytes()) {
+        Ok((d, errs)) => format!("{}:{}", hex(&d.to_string()), errs.len()),
+        Err(_) => "ERR".to_string(),
+    });
+    format!("lex={}|{}|strict={}|read={}|readr={}", lx, rel, strict, rd, rdr)
 }
 
 /// stream deb822-doc: fields = [hex text; doc encoding (model side only); hex probe key]
